@@ -313,12 +313,17 @@ def run_case(c):
                 new = build_sampler(c, c.seed + 7919, model)
                 rec.take()
                 new.set_state(st)
-                # the model's event count is part of the saved adaptive payload
+                # the model's event count is part of the saved adaptive payload.  The counts are keyed by
+                # object identity: start from an empty table, so that a new object that happens to get the
+                # address of a discarded one does not inherit its count
+                carried = {}
                 for och, nch in zip(sampler.chains, new.chains):
                     for ol, nl in zip(I.levels_of(och), I.levels_of(nch)):
                         for op_, np_ in zip(ol.proposal_dist.proposals, nl.proposal_dist.proposals):
                             if isinstance(np_, I.BaseAdaptiveSupport):
-                                rec.nev[id(np_)] = rec.nev.get(id(op_), 0)
+                                carried[id(np_)] = rec.nev.get(id(op_), 0)
+                rec.nev.clear()
+                rec.nev.update(carried)
                 sampler = new
                 kept = None
                 lines.extend(I.render_oracle(rec.take(), sampler))
